@@ -237,14 +237,13 @@ func (store *Store) Truncate() error {
 		return fmt.Errorf("truncate: seek error: %+v", err)
 	}
 
-	// Add command to select the current database at the top of the file.
-	_, err := store.rw.Write([]byte(
-		fmt.Sprintf("*2\r\n$6\r\nSELECT\r\n$1\r\n%s\r\n", strconv.Itoa(store.currentDatabase))))
-	if err != nil {
-		return fmt.Errorf("truncate: log select error: %+v", err)
-	}
+	// The log is empty now: forget the current database, so that the next logged command is preceded by
+	// the SELECT marker of its own database. (Writing a marker for the current database here produced
+	// "SELECT -1" on a log that had not been written to yet.)
+	store.currentDatabase = -1
+
 	// Immediately sync the file.
-	if err = store.rw.Sync(); err != nil {
+	if err := store.rw.Sync(); err != nil {
 		return fmt.Errorf("truncate: sync error: %+v", err)
 	}
 
